@@ -269,6 +269,50 @@ def product_bounded(doms, k, cap=48, reduced=3):
 
 
 ABSENT = ('<absent>',)
+_OVERRIDE = [None]
+_INCOMPLETE = [False]
+
+
+def enable_incomplete(on=True):
+    """Opt in to the earlier-version values (mandatory extension additions absent from some
+    addition on).  Called from a property module's setup(), before the workers are forked."""
+    _INCOMPLETE[0] = bool(on)
+
+
+def is_incomplete(t, v, env, _depth=0):
+    """True when value v of term t lacks a component that is neither OPTIONAL nor DEFAULT
+    (only extension additions are ever left out by dom())."""
+    if _depth > 12:
+        return False
+    try:
+        t = resolve(t, env)
+    except (KeyError, RecursionError):
+        return False
+    if isinstance(t, Seq) and isinstance(v, dict):
+        for m in all_members(t):
+            if m.name not in v:
+                if m.q == 'M':
+                    return True
+            elif is_incomplete(m.t, v[m.name], env, _depth + 1):
+                return True
+        return False
+    if isinstance(t, Cho) and isinstance(v, tuple) and len(v) == 2:
+        for m in all_members(t):
+            if m.name == v[0]:
+                return is_incomplete(m.t, v[1], env, _depth + 1)
+        return False
+    if isinstance(t, Of) and isinstance(v, list):
+        return any(is_incomplete(t.elem, x, env, _depth + 1) for x in v[:8])
+    return False
+
+
+def dom_with(t, env, override, **kw):
+    """dom() with the domains of some leaves replaced: override(leaf) -> list or None."""
+    _OVERRIDE[0] = override
+    try:
+        return dom(t, env, **kw)
+    finally:
+        _OVERRIDE[0] = None
 
 
 def _size_admits(size, n):
@@ -318,6 +362,10 @@ def dom(t, env, big=True, k=2, depth=2, cap=48, _stack=()):
     if isinstance(t, Tag):
         return dom(t.inner, env, big, k, depth, cap, _stack)
     if isinstance(t, Leaf):
+        if _OVERRIDE[0] is not None:
+            r = _OVERRIDE[0](t)
+            if r is not None:
+                return list(r)
         return leaf_dom(t, big)
     if isinstance(t, Seq):
         mems = all_members(t)
@@ -354,7 +402,7 @@ def dom(t, env, big=True, k=2, depth=2, cap=48, _stack=()):
             # if it produces bytes, the oracles apply.
             nroot = len(t.root)
             nadd = len(mems) - nroot - len(t.root2)
-            if nadd and any(m.q == 'M' for m in mems[nroot:nroot + nadd]):
+            if _INCOMPLETE[0] and nadd and any(m.q == 'M' for m in mems[nroot:nroot + nadd]):
                 starts, pos = [], 0         # cut only between additions, never inside a [[group]]
                 for a in t.adds:
                     starts.append(pos)
